@@ -338,7 +338,8 @@ def render_tokens(t, style=None):
     def r(t):
         k = t[0]
         if k == 'num':
-            out = [t[1]]
+            # the exponent sign of a literal may be written with the em-dash too
+            out = [t[1].replace('-', minus) if minus != '-' and tape.next(2) == 0 else t[1]]
         elif k == 'var':
             out = [t[1]]
         elif k == 'call':
